@@ -950,7 +950,7 @@ def run(chk):
     corpus = load_corpus()
     lines = corpus + [c for c, _ in cases]
     kinds = ["corpus"] * len(corpus) + [k for _, k in cases]
-    impl = vlib.run_parallel(exe, lines, timeout=600)
+    impl = vlib.run_parallel(exe, lines, timeout=30, batch=64, per_case_timeout=5)
     model = None
     mexe = None
     try:
